@@ -16,11 +16,14 @@ from ..common import F, fs, dy
 from ..check import Prop, Op, strip_private
 from ..leafcommon import np, leaf_case, flow_arr, kink_free, has_curve, interior_slot
 from .c07 import convex_fn
+from .. import gen_fnx
 
 NUMERIC = ('SDevice', 'TDevice')
 CLASSES = ['Device', 'PVDevice', 'CDevice', 'CDevice2', 'CDevice2', 'IDevice', 'IDevice', 'IDevice2', 'GDevice', 'GDevice', 'SDevice', 'TDevice',
            'ADevice', 'ADevice', 'ADevice', 'ADevice']
 KINK_MARGIN = Fraction(1, 8)
+P_SET = 0.04      # share of hess -> setter -> hess histories (storage)
+P_FNX = 0.3       # share of cases from vk/gen_fnx.py (function classes outside the Lean `Fn` embedding: oracle only)
 
 
 def fn_kinds(f, acc=None):
@@ -43,6 +46,8 @@ def idev_bs(d):
         walk(f[x])
   if d['cls'] == 'IDevice':
     b = d['prm']['b']; out.extend(b if isinstance(b, list) else [b])
+  if d['cls'] == 'ADevice' and 'fx' in d['prm']:
+    return gen_fnx.exponents(d['prm']['fx'])
   if d['cls'] == 'ADevice':
     walk(d['prm']['f'])
   return [F(x) for x in out]
@@ -51,6 +56,8 @@ def idev_bs(d):
 def convex_case(case):
   """the description lies in the documented-convex family (PSD is then required)."""
   d = case['dev']
+  if case.get('fnx'):
+    return gen_fnx.convex(d['prm']['fx'], [F(x) for x in d['lb']], [F(x) for x in d['hb']])
   if d['cls'] == 'ADevice':
     return bool(case.get('convex_fn'))
   if d['cls'] == 'IDevice':
@@ -71,6 +78,8 @@ def away_from_kinks(case):
   """numdifftools takes steps 0.003 * 2^k and extrapolates; measured on 1500 storage cases: its Hessian is exact to 1e-8
   when every kink is more than 0.07 flow units away and off by up to 30 % inside that distance: margin 1/8."""
   d = case['dev']; s = [F(x) for x in case['s']]
+  if case.get('fnx'):
+    return gen_fnx.kink_free(d['prm']['fx'], s)
   if d['cls'] == 'SDevice':
     p = d['prm']; e = F(p['efficiency'])
     if F(p['c3']) == 0:
@@ -123,6 +132,20 @@ class C14(Prop):
   def cases(self, rng, tier, count):
     out = []
     for _ in range(count):
+      if rng.random() < P_FNX:
+        out.append(self.fnx_case(rng, tier))
+        continue
+      if rng.random() < P_SET:     # hess -> assign c1 / c2 through the setters -> hess (storage; half of them without the c3 term)
+        case = leaf_case(rng, tier, ['SDevice'], n=rng.randint(1, 4))
+        pr = case['dev']['prm']
+        if rng.random() < 0.5:
+          pr['c3'] = '0'
+        c1 = F(pr['c1']) + dy(rng, Fraction(1, 4), 2)
+        case['set'] = {'c1': fs(c1), 'c2': fs(dy(rng, 0, c1 - Fraction(1, 4)))}
+        n = case['dev']['n']
+        case['ij'] = [[i, j] for i in range(n) for j in range(i, n)]
+        out.append(case)
+        continue
       cls = rng.choice(CLASSES)
       kw = {'n': rng.randint(1, 4)} if cls in NUMERIC else {}
       case = leaf_case(rng, tier, [cls], **kw)
@@ -150,15 +173,61 @@ class C14(Prop):
       out.append(case)
     return out
 
+  def fnx_case(self, rng, tier):
+    """ADevice over the function classes the Lean `Fn` has no constructor for (vk/gen_fnx.py): ORACLE ONLY, no T2 op."""
+    q = rng.random()
+    n = rng.randint(1, 5) if q < 0.6 else gen.pick_n(rng, tier, 8 if tier == 'quick' else 12)
+    if rng.random() < 0.55:      # strictly positive box: entropy / temporal variance / Cobb-Douglas are defined there
+      lb = [dy(rng, Fraction(1, 2), 2) for _ in range(n)]; hb = [a + dy(rng, 0, 3) for a in lb]
+      if rng.random() < 0.5:
+        lb = [lb[0]]*n; hb = [hb[0]]*n
+    else:
+      lb, hb = gen.gen_bounds(rng, n, sign=rng.choice([None, '+', '-']))
+    allow_numeric = n <= 5       # numdifftools Hessians cost O(n^2) evaluations of an O(n) python loop
+    d = gen_fnx.fnx_case_dev(rng, n, lb, hb, allow_numeric)
+    s = gen.gen_flow(rng, lb, hb, rng.choice(['interior', 'interior', 'mixed', 'upper', 'lower']))
+    case = {'dev': d, 's': [fs(x) for x in s], 'p': gen.gen_price(rng, n), '_shape': rng.choice(['flat', 'flat', 'row']), 'fnx': True}
+    if n <= 5:
+      case['ij'] = [[i, j] for i in range(n) for j in range(i, n)]
+    else:
+      case['ij'] = [[i, i] for i in rng.sample(range(n), 4)] + [sorted(rng.sample(range(n), 2)) for _ in range(8)]
+    return case
+
   @staticmethod
   def t2_able(d):
     return all(b.denominator == 1 for b in idev_bs(d))
 
+  @staticmethod
+  def build_dev(case):
+    """the Python object; with `set`: built from the ORIGINAL parameters, asked for its Hessian once (so that anything the
+    object caches is warm), then the parameters are assigned through the public setters."""
+    if case.get('fnx'):
+      return gen_fnx.build_adevice(case['dev'])
+    if case.get('set'):
+      dev = build.build_leaf(case['_dev0'])
+      dev.hess(build.arr(case['s']).astype(float), 0)
+      for k, v in case['set'].items():
+        setattr(dev, k, C.pf(v))
+      return dev
+    return build.build_leaf(case['dev'])
+
+  @staticmethod
+  def effective(case):
+    """with `set`: the description the model / the oracle's expectations use is the one AFTER the assignments."""
+    if not case.get('set') or '_dev0' in case:
+      return case
+    d0 = case['dev']; d1 = dict(d0); d1['prm'] = dict(d0['prm']); d1['prm'].update(case['set'])
+    e = dict(case); e['dev'] = d1; e['_dev0'] = d0
+    return e
+
   def ops(self, case):
+    case = self.effective(case)
     d = case['dev']
+    if case.get('fnx'):
+      return []          # no model side: the Lean `Fn` embedding has no constructor for these classes
     if not self.t2_able(d):
       return []
-    dev = build.build_leaf(d)
+    dev = self.build_dev(case)
     s = flow_arr(case); p = build.price(case['p'])
     out = [Op({'op': 'leaf.hess', 'dev': d, 's': case['s']}, lambda: dev.hess(s, p), 1e-9, 'hess')]
     if d['cls'] in NUMERIC and d['n'] <= 4:
@@ -177,17 +246,26 @@ class C14(Prop):
   # ---------------------------------------------------------------- oracle
   def oracle(self, case):
     n_ = np()
+    case = self.effective(case)
+    if case.get('set'):
+      self.bump('hess -> setter -> hess cases')
     d = case['dev']; cls = d['cls']; n = d['n']
-    dev = build.build_leaf(d)
-    s = build.arr(case['s']); p = build.price(case['p'])
+    fnx = bool(case.get('fnx'))
+    if fnx:
+      for k in gen_fnx.kinds(d['prm']['fx']):
+        self.bump('fnx kind ' + k)
+    dev = self.build_dev(case)
+    s = build.arr(case['s']).astype(float); p = build.price(case['p'])
     ctx = lambda: 's=%s p=%s prm=%s bounds=%s/%s cbs=%s' % (case['s'], case['p'], json.dumps(strip_private(d['prm']))[:400], d['lb'], d['hb'], d.get('cbs'))
-    fail = lambda kind, msg, **kw: [{'key': dict({'cls': cls, 'kind': kind}, **kw), 'detail': '%s: %s; %s' % (cls, msg, ctx())}]
+    fx = {'fn': '+'.join(sorted(gen_fnx.kinds(d['prm']['fx']) & {'x2d', 'poly1d', 'inner', 'abcx', 'entropy', 'tvar', 'cobb', 'sum', 'base'})),
+          'tvar': 'tvar' in gen_fnx.kinds(d['prm']['fx'])} if fnx else {}
+    fail = lambda kind, msg, **kw: [{'key': dict(dict({'cls': cls, 'kind': kind}, **fx), **kw), 'detail': '%s: %s; %s' % (cls, msg, ctx())}]
     bs = idev_bs(d)
     regular = all(b == 1 or b >= 2 for b in bs)      # second derivative of c*q^b finite for every q >= 0
     try:
       H = n_.array(dev.hess(flow_arr(case), p), dtype=float)
-    except ArithmeticError as e:
-      if regular:
+    except (ArithmeticError, ValueError, TypeError) as e:
+      if regular or not isinstance(e, ArithmeticError):
         return fail('hess-raises', 'hess raises %s(%s) at an in-bounds flow where the second derivative is finite' % (type(e).__name__, e),
                     exc=type(e).__name__, b='1' if any(b == 1 for b in bs) else 'other')
       self.bump('singular exponent at q = 0 (skipped)')
@@ -199,7 +277,7 @@ class C14(Prop):
         return fail('hess-nonfinite', 'hess has non-finite entries %s' % H.tolist())
       self.bump('singular exponent at q = 0 (skipped)')
       return []
-    numeric = cls in NUMERIC
+    numeric = cls in NUMERIC or (fnx and gen_fnx.numeric(d['prm']['fx']))
     scale = max(1.0, float(n_.abs(H).max()))
     tol = 1e-4 if numeric else 1e-9
     # symmetry
@@ -209,14 +287,22 @@ class C14(Prop):
       return fail('asymmetric', 'hess[%d][%d] = %.10g but hess[%d][%d] = %.10g' % (i, j, H[i, j], j, i, H[j, i]))
     # independent of price
     H0 = n_.array(dev.hess(flow_arr(case), 0), dtype=float)
-    if H0.shape != H.shape or n_.abs(H - H0).max() > tol*scale:
+    if H0.shape != H.shape or n_.abs(H - H0).max() > (1e-6 if numeric else tol)*scale:
       return fail('price-dependent', 'hess(s, p) differs from hess(s, 0): %s vs %s' % (H.tolist(), H0.tolist()))
     if not away_from_kinks(case):
       self.bump('near a kink (differences skipped)')
       return []
     # Jacobian of the marginal cost by first differences of deriv (closed-form classes: every entry)
     cost = lambda x: float(dev.cost(x, p))
-    if not numeric:
+    jac_ok = cls not in NUMERIC      # storage / thermal: the reported Hessian is compared with the cost only
+    if jac_ok:
+      try:
+        dev.deriv(s, p)
+      except Exception as e:         # the marginal cost itself raises (C01 / C10's subject): only the cost is left to compare with
+        self.bump('deriv raises %s (Jacobian-of-deriv check skipped)' % type(e).__name__)
+        jac_ok = False
+    if jac_ok:
+      jrel = 1e-4 if numeric else 2e-5
       der = lambda x: n_.array(dev.deriv(x, p), dtype=float).reshape(-1)
       for j in range(n):
         e = n_.zeros(n); e[j] = 1
@@ -228,7 +314,7 @@ class C14(Prop):
         for i in range(n):
           if not (n_.isfinite(c1[i]) and n_.isfinite(c2[i])) or abs(c1[i] - c2[i]) > 2e-6*max(1, abs(c1[i])):
             continue
-          if abs(H[i, j] - c1[i]) > 2e-5*max(1.0, abs(c1[i])):
+          if abs(H[i, j] - c1[i]) > jrel*max(1.0, abs(c1[i]), scale if numeric else 0.0):
             return fail('jacobian-of-deriv', 'hess[%d][%d] = %.10g but d deriv[%d]/d s[%d] = %.10g (central difference)' % (i, j, H[i, j], i, j, c1[i]))
     # second differences of cost
     rel = 1e-4 if numeric else 2e-4
@@ -251,6 +337,8 @@ class C14(Prop):
     return []
 
   def nontrivial(self, case):
+    if case.get('fnx'):
+      return case['dev']['n'] >= 2 and interior_slot(case) and case['dev']['prm']['fx'] != {'k': 'sum', 'fs': []}
     return case['dev']['n'] >= 2 and has_curve(case['dev']) and interior_slot(case)
 
   def extra_evidence(self):
